@@ -18,6 +18,7 @@ import (
 	"context"
 	"fmt"
 	"io"
+	"sort"
 	"strings"
 	"time"
 
@@ -53,9 +54,57 @@ func (j *Builder) Day(d time.Time) *Day {
 }
 
 func (j *Builder) Build() *Journal {
-	return &Journal{
-		Days: dict.SortedValues(j.days, CompareDays),
+	days := dict.SortedValues(j.days, CompareDays)
+	for _, d := range days {
+		d.sortBySource()
 	}
+	return &Journal{
+		Days: days,
+	}
+}
+
+// sortBySource orders the directives of a day by their position in the
+// source (file path, offset). Files are parsed concurrently, so the order in
+// which directives of different files arrive is arbitrary and must not
+// influence any result. Directives without a source come first, in the
+// order in which they were added.
+func (d *Day) sortBySource() {
+	less := func(r1, r2 *syntax.Range) bool {
+		if r1 == nil || r2 == nil {
+			return r1 == nil && r2 != nil
+		}
+		if r1.Path != r2.Path {
+			return r1.Path < r2.Path
+		}
+		return r1.Start < r2.Start
+	}
+	sort.SliceStable(d.Prices, func(i, j int) bool {
+		return less(srcRange(d.Prices[i].Src), srcRange(d.Prices[j].Src))
+	})
+	sort.SliceStable(d.Openings, func(i, j int) bool {
+		return less(srcRange(d.Openings[i].Src), srcRange(d.Openings[j].Src))
+	})
+	sort.SliceStable(d.Transactions, func(i, j int) bool {
+		return less(srcRange(d.Transactions[i].Src), srcRange(d.Transactions[j].Src))
+	})
+	sort.SliceStable(d.Assertions, func(i, j int) bool {
+		return less(srcRange(d.Assertions[i].Src), srcRange(d.Assertions[j].Src))
+	})
+	sort.SliceStable(d.Closings, func(i, j int) bool {
+		return less(srcRange(d.Closings[i].Src), srcRange(d.Closings[j].Src))
+	})
+}
+
+// srcRange returns the range of a syntax node, or nil if there is none.
+func srcRange[T any, P interface {
+	*T
+	GetRange() syntax.Range
+}](p P) *syntax.Range {
+	if p == nil {
+		return nil
+	}
+	r := p.GetRange()
+	return &r
 }
 
 func (j *Builder) Add(d model.Directive) error {
